@@ -67,6 +67,7 @@ Section StmtInd.
   Hypothesis HWith : forall ln items b, Forall P b -> P (SWith ln items b).
   Hypothesis HTry : forall ln b hs o f, Forall P b -> Forall PH hs -> Forall P o -> Forall P f -> P (STry ln b hs o f).
   Hypothesis HPass : forall ln, P (SPass ln).
+  Hypothesis HDoc : forall ln ex br, Forall P ex -> P (SDoc ln ex br).
   Fixpoint stmt_ind' (s : stmt) : P s :=
     let blk := fix blk (l : list stmt) : Forall P l :=
                  match l with [] => Forall_nil _ | x :: r => Forall_cons x (stmt_ind' x) (blk r) end in
@@ -92,6 +93,7 @@ Section StmtInd.
                  end) hs)
              (blk o) (blk f)
     | SPass ln => HPass ln
+    | SDoc ln ex br => HDoc ln ex br (blk ex)
     end.
 End StmtInd.
 
